@@ -654,6 +654,11 @@ func (f *MemFile) Write(b []byte) (n int, err error) {
 
 	nd.mu.Lock()
 
+	if f.openMode&avfs.OpenAppend != 0 && len(b) > 0 {
+		// O_APPEND: every write lands at the current end of the file.
+		f.at = int64(len(nd.data))
+	}
+
 	if gap := f.at - int64(len(nd.data)); gap > 0 && len(b) > 0 {
 		// the offset is beyond the end of the file: the gap reads as zeros.
 		nd.data = append(nd.data, make([]byte, gap)...)
